@@ -513,6 +513,15 @@ def _visited_guard(ctx, fn, call):
     gave false); on the other side the guard is inverted: ('inverted', ..)."""
     for pc in P.path_conds(fn, call):
         if pc[0] in ('if',):
+            # the set may live in a small private wrapper (`seen.record(name)` / `seen.has_recorded(name)`): a workspace
+            # method whose body performs the membership test on a set is the test
+            for n in H.walk_through_locals(fn, pc[1]):
+                if n['k'] in ('call', 'mcall'):
+                    for lf_ in ctx.pv.local_fns(n.get('callee')) or []:
+                        if lf_.d.get('output', '') == 'bool' and any(x_['k'] == 'mcall' and x_['method'] in VISITED_METHODS and
+                                                                     any(t_ in (x_['recv'].get('ty', '') + x_['recv'].get('aty', '')) for t_ in ('BTreeSet', 'HashSet'))
+                                                                     for x_ in walk(lf_.body)):
+                            return True, 'guarded by %s() (a set wrapper)' % short(lf_.path)
             # `a && visited.insert(x) && rec(..)`: the left operand is itself a conjunction
             for n in H.walk_through_locals(fn, pc[1]):
                 if n['k'] == 'mcall' and n['method'] in VISITED_METHODS:
